@@ -3,5 +3,6 @@ From M Require Import base.ExtractBase gen.Consts model.KeyTime.
 Extraction Language OCaml.
 Extraction "model.ml"
   xb_zadd xb_zmul xb_zdiv xb_zmod xb_zopp xb_zltb xb_nadd xb_nmul xb_ndiv xb_nmod xb_z_of_n xb_n_of_z xb_n_of_nat xb_nat_of_n xb_keep
-  KeyRefreshInterval_ns cacheValidInterval_ns cacheValidMaxJitterMs
-  epoch slots cache_lookup decryptor_lookup minute within_range32 timestamp_ok.
+  KeyRefreshInterval_ns cacheValidInterval_ns cacheValidMaxJitterMs packetUnderlayScheduleWindow_ns
+  epoch slots cache_lookup decryptor_lookup minute within_range32 timestamp_ok
+  underlay_takes_sessions key_found open_request_ok.
